@@ -26,15 +26,18 @@ Section Lazy.
   Definition nearest (tree : list lnode) (q : St) : nat :=
     match tree with [] => O | n :: t => nearest_from t q 1 O (dist (l_state n) q) end.
   Definition find_id (tree : list lnode) (i : nat) : option lnode := find (fun n => Nat.eqb (l_id n) i) tree.
-  (* removeMotion: the motion with identity [target] and everything below it; parents precede their children in the list *)
-  Fixpoint remove_subtree (target : nat) (removed : list nat) (tree : list lnode) : list lnode :=
-    match tree with
-    | [] => []
-    | n :: t =>
-      if Nat.eqb (l_id n) target || match l_parent n with Some p => existsb (Nat.eqb p) removed | None => false end
-      then remove_subtree target (l_id n :: removed) t
-      else n :: remove_subtree target removed t
+  (* removeMotion: the motion with identity [target] and everything below it *)
+  Fixpoint is_desc (fuel : nat) (tree : list lnode) (target : nat) (n : lnode) : bool :=
+    match fuel with
+    | O => false
+    | S f => Nat.eqb (l_id n) target ||
+             match l_parent n with
+             | Some p => match find_id tree p with Some pn => is_desc f tree target pn | None => false end
+             | None => false
+             end
     end.
+  Definition remove_subtree (fuel : nat) (target : nat) (tree : list lnode) : list lnode :=
+    filter (fun n => negb (is_desc fuel tree target n)) tree.
   Definition set_valid (i : nat) (tree : list lnode) : list lnode :=
     map (fun n => if Nat.eqb (l_id n) i then mkL (l_id n) (l_state n) (l_parent n) true else n) tree.
   (* identities from the root to node i *)
@@ -47,20 +50,20 @@ Section Lazy.
              end
     end.
   (* the validation pass over the path, root first *)
-  Fixpoint validate (tree : list lnode) (path : list nat) : list lnode * bool :=
+  Fixpoint validate (fuel : nat) (tree : list lnode) (path : list nat) : list lnode * bool :=
     match path with
     | [] => (tree, true)
     | i :: rest =>
       match find_id tree i with
       | None => (tree, false)
       | Some n =>
-        if l_valid n then validate tree rest
+        if l_valid n then validate fuel tree rest
         else match l_parent n with
-             | None => validate tree rest
+             | None => validate fuel tree rest
              | Some p =>
                match find_id tree p with
                | None => (tree, false)
-               | Some pn => if mv (l_state pn) (l_state n) then validate (set_valid i tree) rest else (remove_subtree i [] tree, false)
+               | Some pn => if mv (l_state pn) (l_state n) then validate fuel (set_valid i tree) rest else (remove_subtree fuel i tree, false)
                end
              end
       end
@@ -74,7 +77,7 @@ Section Lazy.
     let tree1 := tree ++ [mkL id d (Some (l_id nn)) false] in
     if sat d then
       let path := id_chain (S id) tree1 id in
-      let '(tree2, ok) := validate tree1 path in
+      let '(tree2, ok) := validate (S (S id)) tree1 path in
       if ok then mkLS tree2 (S id) (Some (map (fun i => match find_id tree2 i with Some n => l_state n | None => dflt end) path, gdist d))
       else mkLS tree2 (S id) None
     else mkLS tree1 (S id) None.
